@@ -559,7 +559,6 @@ func (e *mapEnv) iterate(q int) {
 	}
 }
 
-
 // persistStep: commit / crash / reload for maps (see arrEnv.persistStep).
 func (e *mapEnv) persistStep() bool {
 	w := e.w
